@@ -58,7 +58,7 @@ EXHAUSTIVE = {"quick": False, "thorough": False}
 ALPHA = ["ok", "lost", "rlost", "delay1.5", "delay3.5", "dup", "busy",
          "fatal"]
 ENUM_QUICK = [(1, 1), (1, 2), (1, 3), (2, 1), (2, 2), (3, 1)]
-ENUM_THOROUGH = ENUM_QUICK + [(1, 4), (2, 3), (3, 2), (4, 1)]
+ENUM_THOROUGH = ENUM_QUICK + [(1, 4), (2, 3), (3, 2), (4, 1), (1, 5), (5, 1)]
 BOUND = {
     "quick": "complete enumeration of per-try outcome sequences over %r for "
              "(commands, tries) in %r and every window 1..commands; plus "
@@ -87,7 +87,7 @@ _blocks = {}
 
 def plan(tier):
     _blocks[tier] = enum_blocks(tier)
-    n = 900 if tier == "quick" else 60000
+    n = 8000 if tier == "quick" else 400000
     return [("enum", len(_blocks[tier])), ("random", n), ("multi", n),
             ("big", n // 6)]
 
